@@ -482,6 +482,39 @@ Section Proofs.
 End Proofs.
 
 (* ------------------------------------------------------------------------------------------------ *)
+(* every registered route has a walked handler                                                       *)
+(* ------------------------------------------------------------------------------------------------ *)
+
+Lemma str_in_In : forall s l, str_in s l = true -> In s l.
+Proof.
+  intros s l H. unfold str_in in H. apply existsb_exists in H. destruct H as (x & Hx & E).
+  apply String.eqb_eq in E. subst. exact Hx.
+Qed.
+
+Lemma route_handlers_walked_row : forall rt opts walked m p segs h reg,
+  route_handlers_walked rt opts walked = true -> In (RtRow m p segs h reg) rt -> In h walked.
+Proof.
+  intros rt opts walked m p segs h reg H I. unfold route_handlers_walked in H.
+  apply andb_prop in H. destruct H as [H _]. rewrite forallb_forall in H.
+  specialize (H _ I). simpl in H. apply str_in_In. exact H.
+Qed.
+
+Lemma route_handlers_walked_default : forall rt opts walked,
+  route_handlers_walked rt opts walked = true -> opts <> [] -> In "ServeHTTP"%string walked.
+Proof.
+  intros rt opts walked H N. unfold route_handlers_walked in H.
+  apply andb_prop in H. destruct H as [_ H]. destruct opts; [congruence|]. apply str_in_In. exact H.
+Qed.
+
+Lemma route_handlers_walked_no_unknown : forall rt opts walked pos why,
+  route_handlers_walked rt opts walked = true -> ~ In (RtUnknown pos why) rt.
+Proof.
+  intros rt opts walked pos why H I. unfold route_handlers_walked in H.
+  apply andb_prop in H. destruct H as [H _]. rewrite forallb_forall in H.
+  specialize (H _ I). discriminate.
+Qed.
+
+(* ------------------------------------------------------------------------------------------------ *)
 (* non-vacuity and sharpness                                                                         *)
 (* ------------------------------------------------------------------------------------------------ *)
 
